@@ -79,6 +79,12 @@ pub fn build(rng: &mut Rng, plan: &Plan) -> Result<Built, String> {
             // the same append through helpers::StreamWriter (one write call = one append)
             use std::io::Write;
             mla::helpers::StreamWriter::new(&mut w, ids[*f].unwrap()).write_all(piece).map_err(|e| format!("stream writer: {e:?}"))?;
+        } else if (k + piece.len()) % 5 == 1 {
+            // a source holding MORE than the announced size (a prefix of a longer buffer): only `size` bytes belong to the file
+            let mut longer = piece.clone();
+            longer.extend(std::iter::repeat(0xEEu8).take(1 + (k * 37 + piece.len()) % 97));
+            w.append_file_content(ids[*f].unwrap(), piece.len() as u64, longer.as_slice())
+                .map_err(|e| format!("append from a longer source: {e:?}"))?;
         } else {
             w.append_file_content(ids[*f].unwrap(), piece.len() as u64, piece.as_slice())
                 .map_err(|e| format!("append: {e:?}"))?;
